@@ -107,6 +107,9 @@ pub fn panel() -> Vec<Value> {
         json!([1.0, 1, "1", [1], {"1": 1}, true, null]),
         // two operands taken from the document: containers holding the same number written differently
         json!([{"a": {"n": 1}, "b": {"n": 1.0}}, {"a": {"n": 1}, "b": {"n": 2}}, {"a": [{"n": 10}], "b": [{"n": 1e1}]}, {"a": {"n": 1, "m": [2]}, "b": {"m": [2.0], "n": 1}}, {"a": 1}]),
+        // a regular expression with an escaped backslash stored in the document, and subjects that tell it from its
+        // collapsed form
+        json!({"p": "a\\\\b", "q": ["a\\\\b"], "s1": "a\\b", "s2": "a\\\\b", "s3": "ab", "s4": "a b"}),
         // strings whose order differs between scalar values, UTF-16 code units and (for some) UTF-8 bytes
         json!(["a", "\u{d7ff}", "\u{e000}", "\u{fffd}", "\u{ffff}", "\u{10000}", "\u{10ffff}", "x\u{ff21}", "x\u{1f600}", "", "\u{e9}", "e\u{301}"]),
         // numbers around the limits of the integer representations (2^63, 2^64) next to float-stored neighbours
